@@ -704,3 +704,43 @@ Section Rpc.
   (* every frame consumes at least four bytes *)
   Definition ref_rpc (s : list N) : list msg * bool := ref_rpc_f (Datatypes.S (length_tr s)) s.
 End Rpc.
+
+(* ------------------------------------------------------------------ OPC server, linear-time representation *)
+(* The same machine as o_recv with the receive buffer kept in REVERSE order (f_rdata) together with
+   RxState::offset (f_off) and, once the header is complete, RxState::expected_size (f_exp): a read
+   that does not complete a frame costs time proportional to the bytes read, not to the bytes
+   buffered.  ProofsOpcFast.v shows that it computes exactly what o_recv computes (abstraction
+   o_abs), so the theorems about o_recv carry over; this is the function the correspondence runs. *)
+Record fstate := { f_rdata : list N; f_off : N; f_exp : option N; f_cap : N }.
+Definition f_init : fstate := {| f_rdata := []; f_off := 0; f_exp := None; f_cap := OPC_FRAME_SIZE |}.
+Definition o_abs (f : fstate) : ostate := {| o_data := rev_append (f_rdata f) []; o_cap := f_cap f |}.
+
+Definition f_recv (f : fstate) (av : list N) : option (fstate * list N * list msg) :=
+  let room := usub32 (f_cap f) (f_off f) in
+  let '(rd, r, miss) := take_rev av room (f_rdata f) in
+  let off := f_off f + (room - miss) in
+  if f_cap f <? off then None
+  else
+    let e_opt := match f_exp f with
+                 | Some e => Some e
+                 | None => if off <? OPC_HEADER_SIZE then None else Some (o_expected (rev_append rd []))
+                 end in
+    match e_opt with
+    | None => Some ({| f_rdata := rd; f_off := off; f_exp := None; f_cap := f_cap f |}, r, [])
+    | Some e =>
+      let grow := f_cap f <? e + OPC_HEADER_SIZE in
+      if grow && (e + OPC_HEADER_SIZE <? off) then None
+      else
+        let cap1 := if grow then e + OPC_HEADER_SIZE else f_cap f in
+        if off <? e + OPC_HEADER_SIZE
+        then Some ({| f_rdata := rd; f_off := off; f_exp := Some e; f_cap := cap1 |}, r, [])
+        else
+          (* at least one complete frame: flatten once and run the frame loop *)
+          let d := rev_append rd [] in
+          match o_frames (Datatypes.S (length d)) d (f_cap f) with
+          | Some (s1, out) =>
+            Some ({| f_rdata := rev_append (o_data s1) []; f_off := len (o_data s1); f_exp := None;
+                     f_cap := o_cap s1 |}, r, out)
+          | None => None
+          end
+    end.
